@@ -56,8 +56,11 @@ class Translate(Domain):
         return Points(translated_points, self.space)
 
     def sample_grid(self, n=None, d=None, params=Points.empty(), device="cpu"):
+        # a domain that does not depend on the parameters is sampled once (without them): whether
+        # primitives repeat their grid for such parameters differs from class to class
+        depends = any(var in self.domain.necessary_variables for var in params.space)
         original_points = self.domain.sample_grid(
-            n=n, d=d, params=params, device=device
+            n=n, d=d, params=params if depends else Points.empty(), device=device
         ).as_tensor
         translated_points = self._translate_points(original_points, params)
         return Points(translated_points, self.space)
